@@ -310,7 +310,8 @@ def check(tier):
         rep.violation("translator", {"theorem": "generated tables cannot be regenerated", "detail": str(e)}, no_input=True)
         return rep.finish()
     ok, log = C.coq_make(["theories/Props/C11.vo", "theories/Emerge/Pipeline.vo", "theories/Emerge/TypedSpec.vo"])
-    for t in ["generic_tree_reflects_the_tokens", "juxtaposition_operands_in_written_order", "alternation_operands_in_written_order",
+    for t in ["generic_tree_reflects_the_tokens", "generic_tree_has_the_documented_nesting", "every_documented_reading_is_built",
+              "juxtaposition_operands_in_written_order", "alternation_operands_in_written_order",
               "trailing_bar_is_an_empty_operand", "typed_trees_are_normal", "print_and_build_again", "print_and_build_again_any", "declarations_keep_their_order",
               "typed_tree_denotes_the_written_language", "printed_tree_same_language"]:
         rep.obligation("Props/C11.v: " + t, ok)
